@@ -98,7 +98,38 @@ theorem find_delMany (s : KS) (l : List String) (k : String) :
 def csCmd : Cmd → Bool
   | .set _ _ _ _ | .unlink _ | .pexpire _ _ | .incrby _ _ => true
   | .evalsha (some .incrExpire) _ [.num _, .num _] => true
+  | .evalsha (some .unlock) _ [_] => true
   | _ => false
+
+/-- `_UNLOCK` on the server: refused (script not loaded / wrong type), or the token does not match and nothing
+changes, or the key is there with that token and goes -/
+theorem exec_unlock_cases (s : Srv) (k : String) (tok : Bytes) :
+    s.exec (.evalsha (some .unlock) k [tok]) = (s, .err) ∨ s.exec (.evalsha (some .unlock) k [tok]) = (s, .int 0) ∨
+    (s.ks.present k = true ∧ s.exec (.evalsha (some .unlock) k [tok]) = ({ s with ks := s.ks.delMany [k] }, .int 1)) := by
+  by_cases hl : Script.unlock ∈ s.loaded
+  · simp only [Srv.exec, hl, if_true, Srv.runUnlock, Srv.execPrim]
+    cases hf : s.ks.find k with
+    | none => right; left; simp
+    | some e =>
+      obtain ⟨v, dl⟩ := e
+      have hp : s.ks.present k = true := by simp [KS.present, hf]
+      cases v with
+      | str b =>
+        by_cases hb : b = tok
+        · right; right; subst hb; simp [hp]
+        · right; left; simp [hb]
+      | _ => left; rfl
+  · left; simp [Srv.exec, hl]
+
+theorem touched_unlock (s : Srv) (k : String) (tok : Bytes) :
+    (touched s (.evalsha (some .unlock) k [tok]) = [] ∧ (s.exec (.evalsha (some .unlock) k [tok])).1 = s ∧
+      (s.exec (.evalsha (some .unlock) k [tok])).2 ≠ .int 1) ∨
+    (touched s (.evalsha (some .unlock) k [tok]) = [k] ∧ s.ks.present k = true ∧
+      s.exec (.evalsha (some .unlock) k [tok]) = ({ s with ks := s.ks.delMany [k] }, .int 1)) := by
+  rcases exec_unlock_cases s k tok with h | h | ⟨hp, h⟩
+  · left; simp only [touched, h]; simp
+  · left; simp only [touched, h]; simp
+  · right; simp only [touched, h]; exact ⟨trivial, hp, trivial⟩
 
 /-- a command changes the visible keyspace only at the keys it announces, and never the clock -/
 theorem exec_outside (s : Srv) (c : Cmd) (hc : csCmd c = true) (k : String) (hk : k ∉ touched s c) :
@@ -184,6 +215,12 @@ theorem exec_outside (s : Srv) (c : Cmd) (hc : csCmd c = true) (k : String) (hk 
             · simp only [hc1, if_false]; exact ⟨a1, a2⟩
           | _ => exact ⟨rfl, rfl⟩
       · simp [Srv.exec, hl]
+    | some .unlock, [tok], _ =>
+      rcases touched_unlock s k0 tok with ⟨_, h, _⟩ | ⟨ht, _, h⟩
+      · rw [h]; exact ⟨rfl, rfl⟩
+      · rw [ht, List.mem_singleton] at hk
+        rw [h]
+        exact ⟨by simp [find_delMany, hk], by simp⟩
   | _ => simp [csCmd] at hc
 
 
@@ -206,6 +243,8 @@ theorem exec_now (s : Srv) (c : Cmd) (hc : csCmd c = true) : (s.exec c).1.ks.now
           · simp only [hc1, if_false]; exact a
         | _ => rfl
       · simp [Srv.exec, hl]
+    | some .unlock, [tok], _ =>
+      rcases exec_unlock_cases s k0 tok with h | h | ⟨_, h⟩ <;> rw [h] <;> simp
   | set k v px c => exact execPrim_now s _ hc
   | unlink ks => exact execPrim_now s _ hc
   | pexpire k ms => exact execPrim_now s _ hc
